@@ -533,11 +533,12 @@ pub enum ResultList<'a> {
 
 impl<'a> Parse<'a> for ResultList<'a> {
     fn parse(lexer: &mut Lexer<'a>) -> ParseResult<Self> {
+        // A result list is only parsed after a `->`, which must be followed by a type
         let mut lookahead = Lookahead::new(lexer);
         if Type::peek(&mut lookahead) {
             Ok(Self::Scalar(Parse::parse(lexer)?))
         } else {
-            Ok(Self::Empty)
+            Err(lookahead.error())
         }
     }
 }
